@@ -56,27 +56,53 @@ LEVEL_TEXT = ("Lean theorems over a model of the encoder as the Python dict it i
               "user-defined encoder table x tag list, all pairs of one-field perturbations of the eight hashable classes "
               "(== against the model, a == b => hash(a) == hash(b) on the real objects, also for objects holding unvalidated "
               "ints / signed zeros), regenerated field tables, and the hand-written __hash__ methods run on opaque "
-              "field values (what they hash, for all values) with the hash theorem instantiated on the extracted table.")
+              "field values (what they hash, for all values) with the hash theorem instantiated on the extracted table. "
+              "Follow-up 3: the extras of a Term are modelled as the insertion-ordered dict they are (dict == is equality of "
+              "the key-sorted items, so two terms built through any path / order are == iff their canonical model terms "
+              "are equal, then hash alike and are found by the encoder; a hash folding the extras in insertion order breaks "
+              "this), Python's call binding with the documented parameter order of find_tag / find_feature / the encodings "
+              "as regenerated tables (positional call = keyword call in any order), and histories: a memo table keyed by "
+              "the full input is invisible while one keyed by a part answers a neighbour wrongly, an object that drops its "
+              "memoised hash on every change hashes as its content now while cached_property-style memos go stale. Tied by "
+              "all ordered pairs of construction recipes per hashable class (constructor, model_validate, JSON, copies, "
+              "extras in every order, explicit None), histories of calls on shared / reused / changed objects judged step "
+              "by step by the pure model, size thresholds and float32 store boundaries.")
 LEVEL_NOTE = ("Trusted: Lean kernel; CPython dict/tuple/str/float/UUID hashing and equality (probing order of dict "
               "abstracted: every entry with the probe's hash is compared); pydantic BaseModel.__eq__ is "
               "observed, not modelled from source; numpy float32 store (its value is computed by the harness with "
               "struct and handed to the model) and numpy / list index rule (monitored as contracts). Unmodelled: "
               "vocabularies with repeated tags (outside the quantifier; "
               "the model covers them, the check does not compare them), NaN feature values (PyVal floats are finite), "
-              "hash traces cannot see id()/type() of a field value (identity dependence is observed on two instances). "
+              "hash traces cannot see id()/type() of a field value (identity dependence is observed on two instances); a "
+              "vocabulary list or vocabulary tag objects changed by the caller while an encoder built on them is alive "
+              "(SimpleEncoder keeps the caller's sequence: decode follows it, encode the snapshot; noted, not compared); "
+              "subclasses of Tag; model_construct. "
               "Model tied to the code by regenerated obligations and generator-bounded correspondence.")
 TECHNIQUE = ("Lean 4 proof over model (dict as association list = hash table under the contract, fill loops over any "
              "encoder with numpy's index rule, find_tag, key= path, raw Python values and parametric hashes); field tables "
              "regenerated by introspection and one-field perturbation; __hash__ methods executed on opaque leaves (tie 1b) "
              "and the hash theorem instantiated on the extracted table; exhaustive small-scope correspondence on the real "
              "encoder and on user-defined encoders; eq/hash monitor on the real classes; purity / list-vs-tuple / reuse "
-             "probes on every call")
+             "probes on every call; construction-path products (RawTerm model of the extras), call styles against the "
+             "documented signatures (bindCall), histories through harness/history.py judged per step by the pure model "
+             "(memo-table and memoised-hash theorems), size-threshold and float32-boundary sweeps")
 RULE = ("exhaustive vocabularies (<= 4 distinct tags) x tag / predicted-tag lists over an adversarial pool (terms sharing "
         "name or label, optional-field and extra-field variants, empty values, case / blank / Unicode-composition variants "
         "of values), random longer ones, every encoder table of 3 tags into {skip, 0..K-1} (K <= 2) x tag lists, all "
         "ordered pairs of one-field perturbations per hashable class, raw int/float/signed-zero variants reached by "
         "model_copy(update) / setattr / model_construct; non-trivial = some tag was encoded / the vector is non-zero / the "
-        "pair compares equal or differs in exactly one field / a tag was found; distinct = distinct (operation, input)")
+        "pair compares equal or differs in exactly one field / a tag was found; distinct = distinct (operation, input); "
+        "follow-up 3: per hashable class all ordered pairs of construction recipes (constructor in both keyword orders, "
+        "model_validate of objects / plain data, model_validate_json, extras via model_copy(update), explicit None, copy / "
+        "deepcopy / pickle / model_copy shallow and deep of a hashed object; the extras of every term in every order) on the "
+        "base object and on one with 2-3 extras, pool neighbours through random recipes, all ordered pairs of 29 extras "
+        "item lists x 4 ways (extras_eq); histories (3-5 steps: x, a neighbour of x, x again; fresh / reused objects changed by "
+        "assignment, model_copy(update) shallow and deep, copy.copy + assignment, the same list refilled; returned arrays "
+        "poisoned; earlier results read again at the end) for the encoder, the three encodings, find_tag, find_feature; "
+        "vocabularies and lists of 15..17 / 255..257 / 1023..1025 elements; float32 ties, denormals and their binary64 "
+        "neighbours; scores as int / bool / numpy scalars; vocabularies as list / tuple / deque / object array / user "
+        "Sequence; keyword, positional and mixed calls; encoders whose num_classes is an instance / class attribute, a "
+        "property, a slot, a namedtuple or dataclass field; one uuid shared across kinds")
 TRUSTED = ["CPython dict, tuple, str, float and UUID hashing/equality",
            "pydantic-core construction of the data objects (observed through __dict__ / __pydantic_extra__)",
            "numpy float32 assignment (value recomputed with struct.pack('f') and monitored as a contract)",
@@ -86,8 +112,17 @@ ASSUMPTIONS = ["the walk of an object (class name, declared fields in order, ext
                "pydantic's __eq__ compares (no private attributes in soundevent.data: monitored by the table obligation)",
                "string / UUID hashes of the distinct perturbation values differ (2^-64 collision probability)",
                "a __hash__ that runs on opaque leaves (no ==, bool, str, len, ordering of a field value) treats real "
-               "field values the same way (no branching on id()/type(), which a leaf cannot intercept)"]
+               "field values the same way (no branching on id()/type(), which a leaf cannot intercept)",
+               "the keys of a term's extras are distinct (a Python dict) and Python's sorted() orders str keys by code point as "
+               "Lean's String order does (the model checks `canon_is_sent` on every extras_eq case)",
+               "oracle independence: every expected value is a reply of the Lean model or a relation between two observations "
+               "the property states (== => same hash, encoder follows ==); `from soundevent` imports are constructors, the "
+               "functions under test, and introspection for the regenerated tables"]
 NOT_COMPARED = ["vocabularies with repeated tags (the property quantifies over distinct tags; dict keeps the last index)",
+                "a vocabulary sequence / vocabulary tag objects changed by the caller while the encoder built on them is alive: "
+                "SimpleEncoder keeps the caller's sequence (decode reads it, encode the dictionary built at creation); in "
+                "histories decode is read once, right after creation",
+                "construction paths that do not reproduce the content (the library's validation changed it): skipped and tallied",
                 "prediction vectors when one vocabulary tag (one index) is predicted with two different scores: only "
                 "`holdsPrediction` (entry is one of that tag's scores) is required there",
                 "encoder indices outside [0, n) and decode outside [0, n): compared (numpy / list index rule) but not fixed "
@@ -388,8 +423,7 @@ def _impl_encoder(inp):
             if via != first:
                 raise AssertionError("equal tags obtained through other construction paths are encoded differently: %r %r"
                                      % (first, via))
-        enc2 = (encoding.create_tag_encoder(tags=_container(snapshot, s)) if _SIG_OK.get("create_tag_encoder")
-                else encoding.create_tag_encoder(_container(snapshot, s)))
+        enc2 = encoding.create_tag_encoder(tags=_container(snapshot, s))
         cont = [enc2.encode(mk_tag(t)) for t in inp["tags"]]
         if cont != first or enc2.num_classes != n:
             raise AssertionError("a vocabulary given as a %s is encoded differently: %r %r"
@@ -432,7 +466,15 @@ def _impl_prediction(inp):
     for p in inp["preds"]:
         s = float(Fraction(p["score"]))
         assert rat(f32(s)) == p["score32"], "stale score32 in input"
-        preds.append(data.PredictedTag(tag=mk_tag(p["tag"]), score=_as_num(s, inp.get("num"))))
+        how = (_salt(inp) + len(preds)) % 5
+        if how == 3:                                   # the prediction parsed from plain data / from a JSON document
+            preds.append(data.PredictedTag.model_validate({"tag": _plain(_tag_tree(p["tag"]), len(preds)), "score": s}))
+        elif how == 4:
+            import json
+            preds.append(data.PredictedTag.model_validate_json(
+                json.dumps({"score": s, "tag": _plain(_tag_tree(p["tag"]), len(preds) + 1)})))
+        else:
+            preds.append(data.PredictedTag(tag=mk_tag(p["tag"]), score=_as_num(s, inp.get("num"))))
         assert type(preds[-1].score) is float and preds[-1].score == s, "the score was not stored as the float given"
     r = _twice(encoding.prediction_encoding, preds, _encoder(inp), same=_arr_same, salt=_salt(inp), kw=ENC_SIG)
     assert r.ndim == 1 and r.dtype == np.float32
@@ -961,6 +1003,12 @@ def _g_setup(inp):
     return objs, enc
 
 
+def _fingerprint(x):
+    """what a Tag / Feature / PredictedTag carries, cheaply (terms are frozen: their identity stands for their content)"""
+    t = getattr(x, "tag", x)
+    return (id(t), id(getattr(t, "term", None)), getattr(t, "value", None), getattr(x, "score", None))
+
+
 ENC_SIG = ["tags", "encoder"]        # = encodingSig of the model; compared with inspect.signature on every run
 _SIG_OK = {}                          # function name -> the code has the documented parameter names (set by _stage_signatures)
 
@@ -970,9 +1018,13 @@ def _twice(f, seq, *rest, same=lambda a, b: a == b, salt=None, kw=None):
     with `salt` also on another kind of Sequence, with `kw` (the documented parameter names) also by keyword, the
     keywords in reverse order"""
     snapshot = list(seq)
+    before = [_fingerprint(x) for x in snapshot]
     r1 = f(seq, *rest)
     if len(seq) != len(snapshot) or any(a is not b for a, b in zip(seq, snapshot)):
         raise AssertionError("the function changed the list it was given")
+    if [_fingerprint(x) for x in snapshot] != before:
+        _BY_ID.clear()                      # the shared pool objects are spoilt: later cases build their own
+        raise AssertionError("the function changed one of the objects in the list it was given")
     r2 = f(seq, *rest)
     r3 = f(tuple(snapshot), *rest)
     if not same(r1, r2):
@@ -983,7 +1035,7 @@ def _twice(f, seq, *rest, same=lambda a, b: a == b, salt=None, kw=None):
         r4 = f(_container(snapshot, 2 + salt % 3), *rest)
         if not same(r1, r4):
             raise AssertionError("a %s of the same tags gives another result than the list" % CONTAINERS[2 + salt % 3])
-    if kw is not None and salt is not None and salt % 3 == 0 and _SIG_OK.get(getattr(f, "__name__", ""), False):
+    if kw is not None and salt is not None and salt % 3 == 0:
         r5 = f(**dict(reversed(list(zip(kw, (seq,) + rest)))))
         if not same(r1, r5):
             raise AssertionError("the call with keywords gives another result than the positional call")
@@ -1095,9 +1147,12 @@ CALL_STYLES = ["kw", "kw_rev", "pos", "mixed", "pos_prefix"]
 def _find_call(fn, seq, kw, style, sig_ok):
     """find_tag / find_feature called as `style` says: keywords (in the documented or the reverse order), all
     positional in the documented order (absent arguments as their documented default None), the first optional
-    argument positional and the rest by keyword, the shortest positional prefix that carries every given argument"""
+    argument positional and the rest by keyword, the shortest positional prefix that carries every given argument.
+    The documented names and order are the contract (findTagSig / findFeatureSig of the model, compared with
+    inspect.signature by an obligation): a call that no longer binds (TypeError) or binds otherwise shows up as a
+    disagreement with the model on that very input."""
     order = ["label", "term", "default"]
-    if style in (None, "kw") or not sig_ok:
+    if style in (None, "kw"):
         return fn(seq, **kw)
     if style == "kw_rev":
         return fn(**dict(reversed([(k, kw[k]) for k in order if k in kw])), **{FIND_FIRST[fn.__name__]: seq})
@@ -2769,5 +2824,5 @@ def search(ctx, failures):
     ctx.run_cases(OPS["prediction"], ({"vocab": v, "preds": p} for v in vocs for p in rng.sample(plists, 30)))
     ctx.run_cases(OPS["eq_hash"], _eq_hash_cases(ctx))
     ctx.run_cases(OPS["eq_hash"], _near_cases(ctx))
-    for st in (_stage_generic, _stage_find, _stage_init, _stage_raw):
+    for st in (_stage_generic, _stage_find, _stage_init, _stage_raw, _stage_paths, _stage_extras, _stage_histories):
         ctx.stage("search:" + st.__name__, st, ctx)
